@@ -39,7 +39,10 @@ type StartCfg struct {
 	// Async: writes reach the connection on another goroutine (a muxer's send loop) and reads are served by a
 	// receive loop: the driver waits for the bytes to be written and reads in blocking mode.
 	Async bool
-	Sizes []int // real plaintext lengths of the frames written right after the handshake
+	// Probes: how many probe handshakes count the handshake writes (the minimum is taken: a muxer may put a
+	// frame of its own - yamux measures the round trip - on the connection before the handshake call returns)
+	Probes int
+	Sizes  []int // real plaintext lengths of the frames written right after the handshake
 }
 
 type startState struct {
@@ -80,6 +83,19 @@ type startRun struct {
 	mu      sync.Mutex
 	log     []any
 	gaveUp  atomic.Bool
+	pair    *HeldPair
+}
+
+func (r *startRun) debug() string {
+	if r.pair == nil {
+		return ""
+	}
+	d := func(x *HeldDir) string {
+		x.p.mu.Lock()
+		defer x.p.mu.Unlock()
+		return fmt.Sprintf("written=%d released=%d pos=%d bounds=%v holdFrom=%d waiting=%v manual=%v all=%v", len(x.buf), x.released, x.pos, x.bounds, x.holdFrom, x.waiting, x.manual, x.releaseAll)
+	}
+	return "AB{" + d(r.pair.AB) + "} BA{" + d(r.pair.BA) + "}"
 }
 
 func (r *startRun) note(m map[string]any) { r.mu.Lock(); r.log = append(r.log, m); r.mu.Unlock() }
@@ -166,6 +182,7 @@ func (r *startRun) body(addCloser func(func())) {
 		return
 	}
 	ca, cb, pair := NewHeldPair()
+	r.pair = pair
 	addCloser(func() { ca.Close(); cb.Close() })
 	tw := cfg.TailWriter(r.variant)
 	writer := tw
@@ -190,12 +207,18 @@ func (r *startRun) body(addCloser func(func())) {
 		var e *StartEnd
 		var err error
 		Guard("initiator handshake", func() { e, err = cfg.Dial(r.variant, ca) })
+		if writer != "init" {
+			pair.AB.Release(nil, true) // not under test in this walk: its last handshake message flows
+		}
 		ich <- startRes{e, err}
 	}()
 	go func() {
 		var e *StartEnd
 		var err error
 		Guard("responder handshake", func() { e, err = cfg.Accept(r.variant, cb) })
+		if writer != "resp" {
+			pair.BA.Release(nil, true)
+		}
 		rch <- startRes{e, err}
 	}()
 	wch, rdch := ich, rch
@@ -208,20 +231,28 @@ func (r *startRun) body(addCloser func(func())) {
 		return
 	}
 	addCloser(wr.end.Close)
+	dirBack.Release(nil, true) // (not under test in this walk: whatever the reader's end writes from now on flows)
 	tailStart := dirW.Released()
 	B := dirW.Written()
-	if (B > tailStart) != init0.Tail {
-		r.mismatch(0, "MACHINERY", fmt.Sprintf("variant %s writer %s: %d handshake bytes pending, the walk has tail=%v (probe counts %v)", r.variant, writer, B-tailStart, init0.Tail, r.counts), nil, nil)
-		return
+	if init0.Tail && B == tailStart {
+		// (the reader had taken the last handshake write already: the walk runs without a pending tail)
+		r.res.Inc(cfg.Layer+"_start_tail_already_read", 1)
+	}
+	if !init0.Tail && B > tailStart {
+		// (a muxer put a frame of its own behind the handshake before the call returned - yamux measures the
+		// round trip -: it is pending like a tail, uncut)
+		r.res.Inc(cfg.Layer+"_start_muxer_frame_pending", 1)
 	}
 	r.note(map[string]any{"op": "start", "writer": writer, "tail_bytes": B - tailStart})
 	led := NewLedger(cfg.Layer+"-start", Content(wIdx), false)
 	// model offsets (units from the start of the tail) of the segment boundaries and their real offsets
 	segM := []int{0}
 	segR := []int{tailStart}
-	if init0.Tail {
+	if init0.Tail && B > tailStart {
 		segM = append(segM, r.hlen)
 		segR = append(segR, B)
+	} else if B > tailStart {
+		segR[0] = B
 	}
 	var cutsM []int // model offsets behind every read of the connection in this walk
 	for _, st := range r.walk.Steps {
@@ -250,7 +281,8 @@ func (r *startRun) body(addCloser func(func())) {
 	released := false
 	segDone := 1
 	release := func() {
-		dirW.Release(realCuts(segDone-1), false)
+		// (a muxer writes on its own schedule: whatever it puts on the connection later flows at once)
+		dirW.Release(realCuts(segDone-1), cfg.Async)
 		segDone = len(segM)
 		released = true
 	}
@@ -335,10 +367,15 @@ func (r *startRun) body(addCloser func(func())) {
 				return
 			}
 			if cfg.Async {
-				for dirW.Written()-before < K {
-					time.Sleep(50 * time.Microsecond) // (coverage only: the send loop has not written yet)
+				// (coverage only, no verdict depends on it: let the muxer's send loop put the frames on the
+				// connection before the stretch is released, so that they can arrive together with the tail)
+				for dirW.Written()-before < K+12 {
+					time.Sleep(50 * time.Microsecond)
 				}
-				time.Sleep(300 * time.Microsecond)
+				for last := -1; last != dirW.Written(); {
+					last = dirW.Written()
+					time.Sleep(500 * time.Microsecond)
+				}
 			}
 			segM = append(segM, segM[len(segM)-1]+op.I("k"))
 			segR = append(segR, dirW.Written())
@@ -395,6 +432,8 @@ func (r *startRun) body(addCloser func(func())) {
 	}
 }
 
+var errProbeTimeout = errors.New("probe handshake did not finish within 30 s")
+
 // probe runs one handshake with everything released automatically and counts the writes of each role until
 // its handshake call returned.
 func startProbe(cfg StartCfg, variant string) ([2]int, error) {
@@ -407,8 +446,19 @@ func startProbe(cfg StartCfg, variant string) ([2]int, error) {
 		err error
 	}
 	ich, rch := make(chan out, 1), make(chan out, 1)
-	go func() { e, err := cfg.Dial(variant, ca); ich <- out{e, pair.AB.NWrites(), err} }()
-	go func() { e, err := cfg.Accept(variant, cb); rch <- out{e, pair.BA.NWrites(), err} }()
+	// (a last handshake write that needs no answer stays staged when its writer returns: release it then)
+	go func() {
+		e, err := cfg.Dial(variant, ca)
+		n := pair.AB.NWrites()
+		pair.AB.Release(nil, true)
+		ich <- out{e, n, err}
+	}()
+	go func() {
+		e, err := cfg.Accept(variant, cb)
+		n := pair.BA.NWrites()
+		pair.BA.Release(nil, true)
+		rch <- out{e, n, err}
+	}()
 	var res [2]int
 	for i, ch := range []chan out{ich, rch} {
 		select {
@@ -419,7 +469,7 @@ func startProbe(cfg StartCfg, variant string) ([2]int, error) {
 			defer o.e.Close()
 			res[i] = o.n
 		case <-time.After(30 * time.Second):
-			return res, fmt.Errorf("probe handshake of variant %s did not finish", variant)
+			return res, fmt.Errorf("%w: variant %s", errProbeTimeout, variant)
 		}
 	}
 	return res, nil
@@ -434,11 +484,23 @@ func RunStart(res *vfh.Result, cfg StartCfg, glob string, rounds, par int) error
 	}
 	counts := map[string][2]int{}
 	for _, v := range cfg.Variants {
-		c, err := startProbe(cfg, v)
-		if err != nil {
-			return fmt.Errorf("probe %s/%s: %w", cfg.Layer, v, err)
+		for i := 0; i < cfg.Probes || i == 0; i++ {
+			c, err := startProbe(cfg, v)
+			if errors.Is(err, errProbeTimeout) {
+				return err // no verdict from a watchdog
+			}
+			if err != nil {
+				// a plain handshake over a healthy connection that hands every stretch over whole (the tail of the
+				// handshake together with whatever follows it) must succeed
+				res.AddMismatch(vfh.Mismatch{Class: cfg.Layer + "-start-handshake", What: fmt.Sprintf("[%s/%s start] the handshake failed on a healthy connection with coalesced delivery: %v", cfg.Layer, v, err),
+					Walk: -1, Expected: "nil", Got: err.Error(), Cfg: map[string]any{"layer": cfg.Layer, "variant": v}})
+				return nil
+			}
+			if old, ok := counts[v]; ok {
+				c[0], c[1] = minInt(c[0], old[0]), minInt(c[1], old[1])
+			}
+			counts[v] = c
 		}
-		counts[v] = c
 	}
 	res.Set(cfg.Layer+"_start_handshake_writes", fmt.Sprint(counts))
 	type job struct {
@@ -483,8 +545,12 @@ func RunStart(res *vfh.Result, cfg StartCfg, glob string, rounds, par int) error
 					return &startRun{cfg: cfg, res: res, file: j.file, walk: j.walk, variant: j.variant, counts: counts[j.variant], hlen: j.hlen,
 						pick: Picker{Seed: uint64(vfh.Seed()), Round: j.round}}
 				}
-				if mk().run(20 * time.Second) {
+				r1 := mk()
+				if r1.run(time.Duration(vfh.EnvInt("VERIF_C02_START_WATCHDOG", 20)) * time.Second) {
 					res.Inc(cfg.Layer+"_start_stalls", 1)
+					r1.mu.Lock()
+					res.Set(fmt.Sprintf("%s_start_stall_%s_walk%d", cfg.Layer, j.variant, j.walk.Walk), fmt.Sprint(r1.log, " | ", r1.debug()))
+					r1.mu.Unlock()
 					if stalls.Add(1) > 3 && !stalled.Swap(true) {
 						res.AddMismatch(vfh.Mismatch{Class: "MACHINERY", What: cfg.Layer + " start: more than 3 walks stalled once without stalling again when repeated", Walk: j.walk.Walk})
 						continue
